@@ -463,54 +463,68 @@ theorem defaults_some_of_supported (ed : Nat) (h : (supportMinimum ≤ ed ∧ ed
     simp only [supportMinimum, supportMaximum, editionUnstable] at h; omega
   rcases this with rfl | rfl | rfl | rfl | rfl <;> decide
 
-/-- **validate_total.** Every function of the model is total (structural recursion, no partial operation, no
-`get!`), so `newFile` always returns a verdict.  The code's own `panic` / `os.Exit` (`toEditionProto`,
-`getFeatureSetFor`, reached from `initFileDescFromFeatureSet`) is the verdict `editionPanic`, which only
-`checkHeader` can produce, and ONLY through the `cmd/protoc-gen-go/testdata/` path escape hatch. -/
-theorem validate_total (p : FileP) (h : checkHeader p = .error .editionPanic) :
-    p.syn = 9 ∧ testdataPrefix.isPrefixOf p.path = true := by
+theorem isKnownEdition_supported (ed : Nat) (h : isKnownEdition ed = true) :
+    (supportMinimum ≤ ed ∧ ed ≤ supportMaximum) ∨ ed = editionUnstable := by
+  simp [isKnownEdition, minimumEdition, maximumEdition, editionUnstable] at h
+  simp only [supportMinimum, supportMaximum, editionUnstable]
+  rcases h.2 with ⟨a, b⟩ | c
+  · exact Or.inl ⟨of_decide_eq_true a, of_decide_eq_true b⟩
+  · exact Or.inr c
+
+theorem packable_ite (b : Bool) (k0 : Nat) (h : packableKind k0 = false) :
+    packableKind (if b = true then kMessage else k0) = false := by
+  cases b
+  · simpa using h
+  · simp [packableKind, kMessage, kString, kBytes, kGroup]
+
+/-- **validate_total / never_panics.** Every function of the model is total (structural recursion, no partial
+operation, no `get!`), so `newFile` always returns a verdict.  The code's own `panic` / `os.Exit` (`toEditionProto`,
+`getFeatureSetFor`, reached from `initFileDescFromFeatureSet`) is the verdict `editionPanic`; only `checkHeader` could
+produce it, and it NEVER does — for every file, whatever its path: since 4beace6 the `cmd/protoc-gen-go/testdata/`
+exemption only admits editions the defaults table covers. -/
+theorem validate_total (p : FileP) : checkHeader p ≠ .error .editionPanic := by
+  intro h
   simp only [checkHeader] at h
   by_cases h1 : p.syn == 1
   · simp [seq, guardV, h1] at h
   by_cases h2 : p.path.isEmpty
   · simp [seq, guardV, h1, h2] at h
+  by_cases hx : (p.syn == 9 && (p.edition < supportMinimum || supportMaximum < p.edition) && p.edition != editionUnstable
+      && (!(testdataPrefix.isPrefixOf p.path) || !isKnownEdition p.edition))
+  · simp [seq, guardV, h1, h2, hx] at h
   by_cases hpk : (!isValidFullName p.pkg && !p.pkg.isEmpty)
-  · by_cases hx : (p.syn == 9 && (p.edition < supportMinimum || supportMaximum < p.edition) && p.edition != editionUnstable
-        && !(testdataPrefix.isPrefixOf p.path))
-    · simp [seq, guardV, h1, h2, hx] at h
-    · simp [seq, guardV, h1, h2, hx, hpk] at h
-  by_cases h9 : p.syn = 9
-  · refine ⟨h9, ?_⟩
-    by_cases hpre : testdataPrefix.isPrefixOf p.path = true
-    · exact hpre
-    · exfalso
-      simp only [Bool.not_eq_true] at hpre
-      by_cases hsup : (p.edition < supportMinimum || supportMaximum < p.edition) && p.edition != editionUnstable
-      · simp [seq, guardV, h1, h2, h9, hpre, hsup] at h
-      · have hs : (supportMinimum ≤ p.edition ∧ p.edition ≤ supportMaximum) ∨ p.edition = editionUnstable := by
-          simp only [Bool.and_eq_true, Bool.or_eq_true, decide_eq_true_eq, bne_iff_ne, ne_eq, not_and,
-            Decidable.not_not] at hsup
-          by_cases hu : p.edition = editionUnstable
-          · exact Or.inr hu
-          · left
+  · simp [seq, guardV, h1, h2, hx, hpk] at h
+  have hd : (defaultsFor (fileEdition p)).isSome = true := by
+    by_cases h9 : p.syn = 9
+    · have hfe : fileEdition p = p.edition := by simp [fileEdition, h9]
+      rw [hfe]
+      apply defaults_some_of_supported
+      by_cases hs : (supportMinimum ≤ p.edition ∧ p.edition ≤ supportMaximum) ∨ p.edition = editionUnstable
+      · exact hs
+      · -- outside the window the guard `hx` can only be false through the exemption, which needs a known edition
+        have hk : isKnownEdition p.edition = true := by
+          simp only [Bool.not_eq_true] at hx
+          have h9' : (p.syn == 9) = true := by simpa using h9
+          have hw : (decide (p.edition < supportMinimum) || decide (supportMaximum < p.edition)) = true := by
+            simp only [not_or, not_and] at hs
+            simp only [Bool.or_eq_true, decide_eq_true_eq]
             by_cases ha : p.edition < supportMinimum
-            · exact absurd (hsup (Or.inl ha)) hu
-            · by_cases hb : supportMaximum < p.edition
-              · exact absurd (hsup (Or.inr hb)) hu
-              · omega
-        have hd := defaults_some_of_supported p.edition hs
-        have hfe : fileEdition p = p.edition := by simp [fileEdition, h9]
-        simp only [Bool.not_eq_true] at hpk hsup
-        simp [seq, guardV, h1, h2, h9, hpre, hsup, hpk, hfe, Option.isSome_iff_ne_none.mp hd] at h
-  · exfalso
-    have hfe : (defaultsFor (fileEdition p)).isSome = true := by
-      unfold fileEdition
+            · exact Or.inl ha
+            · right
+              have := hs.1 (by omega)
+              omega
+          have hu : (p.edition != editionUnstable) = true := by
+            simp only [not_or] at hs
+            simpa using hs.2
+          simp only [h9', hw, hu, Bool.and_self, Bool.true_and, Bool.or_eq_false_iff, Bool.not_eq_false'] at hx
+          exact hx.2
+        exact isKnownEdition_supported _ hk
+    · unfold fileEdition
       have : (p.syn == 9) = false := by simpa using h9
       rw [this]
       by_cases h3 : p.syn == 3 <;> simp [h3] <;> decide
-    have h9' : (p.syn == 9) = false := by simpa using h9
-    simp only [Bool.not_eq_true] at hpk
-    simp [seq, guardV, h1, h2, h9', hpk, Option.isSome_iff_ne_none.mp hfe] at h
+  simp only [Bool.not_eq_true] at hpk hx
+  simp [seq, guardV, h1, h2, hx, hpk, Option.isSome_iff_ne_none.mp hd] at h
 
 /-! ### extensions -/
 
@@ -569,92 +583,109 @@ theorem findTyped_notFound (c : Ctx) (w : Want) (ref : Str) (h : findDescriptor 
     (ha : c.env.allowUnresolvable = false) : findTyped c w ref = .error .unresolvedType := by
   simp [findTyped, h, ha]
 
-/-! ### the `packed` guard is dead code (DESIGN finding 13) -/
+/-! ### invalid `packed` combinations are rejected (DESIGN finding 13, repaired by 622c0ae) -/
 
 def str (x : String) : Str := x.toList.map Char.toNat
 
-theorem findTarget_mapEntry (c : Ctx) (k : Nat) (ref : Str) (t : Target) (h : findTarget c k ref = .ok t)
-    (m : TargetRef) (hm : t.messageT = some m) (hme : m.isMapEntry = true) : t.kind = kMessage ∨ t.kind = kGroup := by
-  unfold findTarget at h
-  split at h
-  · -- enum
-    cases hf : findTyped c .enum ref with
-    | error e => simp [hf, Except.map] at h
-    | ok r => simp [hf, Except.map] at h; subst h; simp at hm
-  · split at h
-    · rename_i hk
-      cases hf : findTyped c .msg ref with
-      | error e => simp [hf, Except.map] at h
-      | ok r =>
-        simp [hf, Except.map] at h; subst h
-        simp only [Bool.or_eq_true, beq_iff_eq] at hk
-        exact hk
-    · split at h
-      · split at h
-        · cases h
-        · cases h
-        · split at h
-          · injection h with h; subst h
-            simp only [Option.some.injEq] at hm; subst hm
-            simp [TargetRef.isMapEntry] at hme
-          · cases h
-        · rename_i t' _
-          split at h
-          · injection h with h; subst h; simp at hm
-          · injection h with h; subst h; left; rfl
-          · cases h
-      · split at h
-        · cases h
-        · split at h
-          · cases h
-          · injection h with h; subst h; simp at hm
+/-- **bad_packed.** `[packed = true]` on a field that is not a list of a packable kind, anywhere in the file. -/
+theorem bad_packed (env : Env) (p : FileP) (m : MessageD) (hm : m ∈ flattenMsgs (build env p).messages)
+    (f : FieldD) (hf : f ∈ m.fields) (h : f.p.packed = some true ∧ isPackable f = false) :
+    ∃ r, newFile env p = .error r := by
+  apply reject_of_field env p m hm f hf
+  intro hv
+  simp only [validateField, seq_ok_iff, guardV_ok_iff, h.1, h.2] at hv
+  exact absurd hv.2.2.2.2.2.2.2.2.2.1 (by decide)
 
-theorem buildField_isMap_kind (c : Ctx) (par : GoFeatures) (scope : Str) (me : Bool) (n i : Nat) (p : FieldP)
-    (h : (buildField c par scope me n i p).isMap = true) : (buildField c par scope me n i p).kind = kMessage := by
-  simp only [buildField, FieldD.isMap] at h ⊢
-  generalize (if (p.type == kMessage && (fieldFeatures par p.features p.packed).isDelimitedEncoded) = true then kGroup else p.type) = k0 at h ⊢
-  cases hft : findTarget c k0 (p.typeName.getD []) with
-  | error e => simp [hft] at h
+/-- the same for extensions declared at file level -/
+theorem bad_packed_ext (env : Env) (p : FileP) (x : FieldD) (hx : x ∈ (build env p).exts)
+    (h : x.p.packed = some true ∧ isPackable x = false) : ∃ r, newFile env p = .error r := by
+  apply reject_of_ext_top env p x hx
+  intro hv
+  simp only [validateExtension, seq_ok_iff, guardV_ok_iff, h.1, h.2] at hv
+  exact absurd hv.2.2.2.2.2.1 (by decide)
+
+/-- `[packed = true]` on a field that is not a repeated field of a packable kind (fields of top-level messages) -/
+def packedOnUnpackable (p : FileP) : Bool :=
+  p.messages.toList.any fun m => m.fields.any fun f =>
+    f.packed == some true && (f.label.getD cOptional != cRepeated || (1 ≤ f.type && !packableKind f.type))
+
+theorem buildField_mem (c : Ctx) (par : GoFeatures) (scope : Str) (me : Bool) (n : Nat) (ps : List FieldP) (i : Nat)
+    (q : FieldP) (hq : q ∈ ps) : ∃ j, buildField c par scope me n j q ∈ buildFields c par scope me n i ps := by
+  induction ps generalizing i with
+  | nil => cases hq
+  | cons a rest ih =>
+    simp only [List.mem_cons] at hq
+    rcases hq with rfl | hq
+    · exact ⟨i, by simp [buildFields]⟩
+    · obtain ⟨j, hj⟩ := ih (i + 1) hq
+      exact ⟨j, by simp [buildFields, hj]⟩
+
+theorem buildMsg_mem_flatten (c : Ctx) (par : GoFeatures) (scope : Str) : (ms : MessagePList) → (m : MessageP) →
+    m ∈ ms.toList → buildMsg c par scope m ∈ flattenMsgs (buildMsgs c par scope ms)
+  | .nil, _, h => by simp [MessagePList.toList] at h
+  | .cons a rest, m, h => by
+    simp only [MessagePList.toList, List.mem_cons] at h
+    simp only [buildMsgs, flattenMsgs, List.mem_append]
+    rcases h with rfl | h
+    · left
+      cases hb : buildMsg c par scope m with
+      | mk bp n f fs os nested es xs => simp [flattenMsg]
+    · right; exact buildMsg_mem_flatten c par scope rest m h
+
+/-- the kind of a built field whose declared type is string / bytes / message / group is one of those four -/
+theorem buildField_unpackable_kind (c : Ctx) (par : GoFeatures) (scope : Str) (me : Bool) (n i : Nat) (q : FieldP)
+    (h1 : 1 ≤ q.type) (h : packableKind q.type = false) :
+    packableKind (buildField c par scope me n i q).kind = false := by
+  have ht0 : (q.type == 0) = false := by simp; omega
+  simp only [buildField, ht0, Bool.false_and, Bool.false_eq_true, ↓reduceIte]
+  generalize hk0 : (if (q.type == kMessage && (fieldFeatures par q.features q.packed).isDelimitedEncoded) = true then kGroup else q.type) = k0
+  have hk0u : packableKind k0 = false := by
+    rw [← hk0]; split
+    · decide
+    · exact h
+  have hk0ne : k0 ≠ 0 := by
+    intro h0; rw [h0] at hk0u; exact absurd hk0u (by decide)
+  cases hft : findTarget c k0 (q.typeName.getD []) with
+  | error e => exact packable_ite _ _ hk0u
   | ok t =>
-    simp only [hft] at h ⊢
-    cases hmt : t.messageT with
-    | none => simp [hmt] at h
-    | some mt =>
-      simp only [hmt, Bool.not_false, Bool.true_and] at h ⊢
-      rcases findTarget_mapEntry c _ _ t hft mt hmt h with hk | hk
-      · simp [hk, kMessage, kGroup]
-      · simp [hk, h]
+    have htk := (findTarget_ok c k0 _ t hft hk0ne).1
+    simp only [htk]
+    exact packable_ite _ _ hk0u
 
-/-- **packed_guard_dead.** For every field `protodesc` builds, `f.IsPacked() && !isPackable(f)` is false:
-`IsPacked()` already requires a repeated field of a packable kind, and such a field is a list (it can only be a map
-if its kind is message).  The `notPackable` error can never be returned. -/
-theorem packed_guard_dead (c : Ctx) (par : GoFeatures) (scope : Str) (me : Bool) (n i : Nat) (p : FieldP) :
-    ((buildField c par scope me n i p).isPacked && !isPackable (buildField c par scope me n i p)) = false := by
-  generalize hf : buildField c par scope me n i p = f
-  have hmap : f.isMap = true → f.kind = kMessage := by
-    subst hf; exact buildField_isMap_kind c par scope me n i p
-  have hext : f.isExtension = false := by subst hf; rfl
-  cases hp : f.isPacked with
-  | false => rfl
-  | true =>
-    simp only [Bool.true_and, Bool.not_eq_false']
-    simp only [FieldD.isPacked, isPacked] at hp
-    split at hp
-    · cases hp
-    · rename_i hcard
-      split at hp
-      · cases hp
-      · rename_i hkind
-        simp only [Bool.not_eq_true, Bool.not_eq_false', bne_iff_ne, ne_eq, Decidable.not_not] at hcard hkind
-        simp only [packableKind, Bool.not_eq_true', Bool.or_eq_false_iff, beq_eq_false_iff_ne, ne_eq] at hkind
-        obtain ⟨⟨⟨hk1, hk2⟩, hk3⟩, hk4⟩ := hkind
-        have hnm : f.isMap = false := by
-          cases hm : f.isMap with
-          | false => rfl
-          | true => exact absurd (hmap hm) hk3
-        simp [isPackable, hk1, hk2, hk3, hk4, FieldD.isList, hcard, hnm, hext]
+/-- **packed_rule.** The stated rule, on the proto level and for every resolver / option: a file with
+`[packed = true]` on a singular field, or on a repeated string / bytes / message / group field, is rejected. -/
+theorem packed_rule (env : Env) (p : FileP) (h : packedOnUnpackable p = true) : ∃ r, newFile env p = .error r := by
+  simp only [packedOnUnpackable, List.any_eq_true, Bool.and_eq_true, beq_iff_eq, Bool.or_eq_true, bne_iff_ne, ne_eq,
+    Bool.not_eq_true', decide_eq_true_eq] at h
+  obtain ⟨m, hm, q, hq, hpk, hbad⟩ := h
+  have hmem := buildMsg_mem_flatten (mkCtx env p) (fileFeatures p) p.pkg p.messages m hm
+  have hmem' : buildMsg (mkCtx env p) (fileFeatures p) p.pkg m ∈ flattenMsgs (build env p).messages := hmem
+  cases m with
+  | mk name fields oneofs nested enums exts xr rr rn me ms feat =>
+    simp only [MessageP.fields] at hq
+    obtain ⟨j, hj⟩ := buildField_mem (mkCtx env p) (mergeGo (fileFeatures p) feat) (fullAppend p.pkg name) me oneofs.length
+      fields 0 q hq
+    refine bad_packed env p _ hmem' _ (by simpa [buildMsg, MessageD.fields] using hj) ⟨hpk, ?_⟩
+    generalize hd : buildField (mkCtx env p) (mergeGo (fileFeatures p) feat) (fullAppend p.pkg name) me oneofs.length j q = d
+    rcases hbad with hl | ⟨h1, hk⟩
+    · -- not repeated: not a list
+      have hc : d.cardinality ≠ cRepeated := by
+        rw [← hd]; simp only [buildField, cardinalityOf]
+        split
+        · decide
+        · exact hl
+      have : (d.cardinality == cRepeated) = false := by simpa using hc
+      simp only [isPackable, FieldD.isList, this, Bool.false_and]
+      split <;> (try rfl)
+      split <;> rfl
+    · have := buildField_unpackable_kind (mkCtx env p) (mergeGo (fileFeatures p) feat) (fullAppend p.pkg name) me
+        oneofs.length j q h1 hk
+      rw [hd] at this
+      simp only [packableKind, Bool.not_eq_false'] at this
+      simp [isPackable, this]
 
-/-- proto2 `message M { repeated string s = 1 [packed = true]; optional int32 i = 2 [packed = true]; }` -/
+/-- proto2 `message M { repeated string s = 1 [packed = true]; optional int32 i = 2 [packed = true]; }`:
+the witness that refuted the rule before 622c0ae, kept as a regression example — it is now rejected. -/
 def packedWitness : FileP :=
   { path := str "w/packed.proto", pkg := str "w", syn := 2
     messages := .cons (.mk (str "M")
@@ -662,19 +693,11 @@ def packedWitness : FileP :=
        { name := str "i", number := some 2, label := some 1, type := 5, packed := some true }]
       [] .nil [] [] [] [] [] false false {}) .nil }
 
-/-- `[packed = true]` on a field that is not a repeated field of a packable kind (top-level messages) -/
-def packedOnUnpackable (p : FileP) : Bool :=
-  p.messages.toList.any fun m => m.fields.any fun f =>
-    f.packed == some true && (f.label.getD cOptional != cRepeated || !packableKind f.type)
-
-/- FULL STATEMENT of the rule "invalid packed combinations are rejected" (false of the current code):
-   `∀ env p, packedOnUnpackable p = true → ∃ r, newFile env p = .error r`. -/
 set_option maxRecDepth 10000 in
-theorem packed_rule_false : ¬ ∀ env p, packedOnUnpackable p = true → ∃ r, newFile env p = .error r := by
-  intro h
-  obtain ⟨r, hr⟩ := h {} packedWitness (by decide)
-  have : (newFile {} packedWitness).isOk = true := by decide
-  rw [hr] at this; cases this
+theorem regress_packedWitness : check {} packedWitness = .error .notPackable ∧ packedOnUnpackable packedWitness = true := by
+  constructor
+  · rfl
+  · decide
 
 /-! ### duplicate extension numbers are accepted (DESIGN finding 14) -/
 
@@ -697,23 +720,18 @@ theorem dup_extension_false : ¬ ∀ env p, dupExtension p = true → ∃ r, new
   have : (newFile {} dupExtWitness).isOk = true := by decide
   rw [hr] at this; cases this
 
-/-! ### the escape hatch reaches the panic (new finding) -/
+/-! ### the testdata exemption no longer reaches the panic (repaired by 4beace6) -/
 
+/-- the witness that made `NewFile` panic before 4beace6 (`cmd/protoc-gen-go/testdata/…`, editions, edition 1), kept as
+a regression example — it is now an ordinary "edition not supported" error; `validate_total` is the general theorem -/
 def editionPanicWitness : FileP :=
   { path := str "cmd/protoc-gen-go/testdata/w.proto", pkg := str "w", syn := 9, edition := 1 }
 
-/- FULL STATEMENT "NewFile never panics" (false of the current code): `∀ env p, check env p ≠ .error .editionPanic`. -/
 set_option maxRecDepth 10000 in
-theorem never_panics_false : ¬ ∀ env p, check env p ≠ .error .editionPanic := by
-  intro h
-  exact h {} editionPanicWitness rfl
-
-/-- … and outside the escape hatch the header check never reaches it (contrapositive of `validate_total`). -/
-theorem never_panics_partial (p : FileP) (h : testdataPrefix.isPrefixOf p.path = false) :
-    checkHeader p ≠ .error .editionPanic := by
-  intro hp
-  have := (validate_total p hp).2
-  rw [h] at this; cases this
+theorem regress_editionPanicWitness :
+    check {} editionPanicWitness = .error .unsupportedEdition ∧
+    check {} { editionPanicWitness with edition := 0 } = .error .unsupportedEdition ∧
+    check {} { editionPanicWitness with edition := 1001 } = .ok () := ⟨rfl, rfl, rfl⟩
 
 /-! ### valid_base_accepted: a structural family the checkers provably accept -/
 
@@ -752,7 +770,8 @@ theorem flatField_build (c : Ctx) (scope : Str) (n i : Nat) (f : FieldP) (h : fl
     simp [a, b, d, e, h1, h2]
   have hlr : g998.isLegacyRequired = false := by decide
   have hg' : (f.type == kGroup) = false := by simpa using hg
-  simp only [buildField, hF, hk0, hft, ho, hd]
+  have ht0 : (f.type == 0) = false := by simp; omega
+  simp only [buildField, hF, hk0, hft, ho, hd, ht0]
   simp [cardinalityOf, hlr, hg', defaultErr, Option.orElse, hd]
 
 theorem mem_buildFields (c : Ctx) (par : GoFeatures) (scope : Str) (me : Bool) (n : Nat) (ps : List FieldP) (i : Nat)
@@ -811,8 +830,8 @@ theorem flat_validateField (v : VCtx) (hv : v.edition = editionProto2) (m : Mess
   have hec : enumClosedNonPlaceholder d = false := by simp [enumClosedNonPlaceholder, het]
   have hpkd : d.isPacked = false := by simp only [FieldD.isPacked, hfe]; exact isPacked_g998 _ _
   have hp2 : (v.edition == editionProto3) = false := by rw [hv]; decide
-  simp only [validateField, seq_ok_iff, guardV_ok_iff, hm.1, hm.2.1, hm.2.2, hnum, hcard, hgrp, hmap, hec, hpkd, hp2,
-    hp, hx, hp3, hco]
+  simp only [validateField, seq_ok_iff, guardV_ok_iff, hm.1, hm.2.1, hm.2.2, hnum, hcard, hgrp, hmap, hec, hp2,
+    hp, hx, hp3, hco, hpk]
   simp [fieldRangesHas]
 
 def isNilP : MessagePList → Bool | .nil => true | .cons .. => false
